@@ -23,7 +23,10 @@ for dst in sorted(glob.glob(os.path.join(V, "seeded", "C*"))):
     sigs = []
     for c in det:
         sigs += e["checks"][c]["signatures"][:2]
-    tests = e.get("tests", {}).get("summary", "(agent-run only)")
+    tt = e.get("tests", {})
+    tests = tt.get("summary", "(agent-run only)")
+    if tt and "passed" not in tests:
+        tests = "all passed (pytest exit %s, %ss)" % (tt.get("rc"), tt.get("wall_s"))
     what = " ".join(str(m.get("what", "")).split())[:230]
     files = ", ".join(os.path.basename(f) for f in m.get("files", []))[:60]
     rows.append("| %s | %s | %s | %s | %s | %s |" % (name, files, what, ", ".join(det) or "**missed**", "; ".join(sorted(set(sigs)))[:140], tests))
